@@ -8,7 +8,7 @@ use crate::state::ROYALTY_REGISTRY;
 const CONTRACT_NAME: &str = "crates.io:fuzion_market";
 const CONTRACT_VERSION: &str = env!("CARGO_PKG_VERSION");
 
-const WEEK_IN_SECS: u64 = 604800;
+pub const WEEK_IN_SECS: u64 = 604800;
 
 //~~~~~~~~~~~~~~~~~~~~~~~~~~~~~~~~~~~~~~~~~~~
 // Instantiate
